@@ -21,6 +21,8 @@ func checkC12(c *Ctx) {
 	r123(c, "R12.3 every-mutating-command-snapshots-after")
 	// the lock that serialises snapshots is the router's own, not a per-call copy (shared with C18)
 	rNoLockCopies(c, "R12.4 no-lock-copies")
+	// what a snapshot writes includes the rollout targets whenever they are in force (shared with C10/C11)
+	r104(c, "R12.5 rollout-slot-symmetry")
 }
 
 // derivesFromField: v is computed from a load of field f (through string ops / calls taking it as argument).
